@@ -67,7 +67,8 @@ def run(module, cfg, workers=16, simulate=None, depth=None, seed=None,
     os.makedirs(scratch, exist_ok=True)
     meta = tempfile.mkdtemp(prefix='tlc-', dir=scratch)
     cfgp = cfg if os.path.isabs(cfg) else os.path.join(SPEC_DIR, 'cfg', cfg)
-    cmd = ['java', '-XX:+UseParallelGC', '-Xmx8g']
+    cmd = ['java', '-XX:+UseParallelGC', '-Xmx8g', '-Xss256m',
+           '-DTLA-Library=' + SPEC_DIR]
     if dfs:
         cmd.append('-Dtlc2.tool.queue.IStateQueue=StateDeque')
     cmd += list(jvm)
@@ -87,12 +88,16 @@ def run(module, cfg, workers=16, simulate=None, depth=None, seed=None,
     if cont:
         cmd += ['-continue']
     cmd += list(extra)
+    cwd = SPEC_DIR
+    if os.path.isabs(module):
+        cwd = os.path.dirname(module)
+        module = os.path.basename(module)
     cmd.append(module if module.endswith('.tla') else module + '.tla')
     env = dict(os.environ)
     env.update(env_extra or {})
     t0 = time.time()
     try:
-        p = subprocess.run(cmd, cwd=SPEC_DIR, env=env, capture_output=True,
+        p = subprocess.run(cmd, cwd=cwd, env=env, capture_output=True,
                            text=True, timeout=timeout)
     except subprocess.TimeoutExpired as ex:
         shutil.rmtree(meta, ignore_errors=True)
@@ -135,7 +140,10 @@ def run(module, cfg, workers=16, simulate=None, depth=None, seed=None,
                 r'(\w+)>: (\d+):(\d+)', out):
             cov[mm.group(1)] = cov.get(mm.group(1), 0) + int(mm.group(5))
         res['coverage'] = cov
-    res['ok'] = (p.returncode == 0 and res['violation'] is None)
+    if res['violation'] is None and re.search(r'^Error: ', out, re.M):
+        res['error'] = True
+    res['ok'] = (p.returncode == 0 and res['violation'] is None
+                 and not res.get('error'))
     if p.returncode != 0 and res['violation'] is None:
         # parse / semantic / runtime error: machinery failure
         res['error'] = True
